@@ -17,7 +17,7 @@ const pkTxpool = "runtime/txpool"
 
 func rulesC20(c *Ctx) {
 	c.Explain = append(c.Explain,
-		"C20 (runtime transaction pool) — decided: (a) the redundant indexes of the main-queue scheduler (hash map, per-sender heaps, min-priority heap, max-priority heap, per-pass schedule map) are mutated only by the designated mutators; (b) the three element mutators insert/remove/replace each update all of: hash map, sender heap, min heap, and (conditionally) max heap, so no index can drift; (c) every increment of a uint64 sequence number is dominated by a guard comparing that same value with math.MaxUint64, and no sequence number is compared with any other 'maximum' constant (the boundary the property names).",
+		"C20 (runtime transaction pool) — decided: (a) the redundant indexes of the main-queue scheduler (hash map, per-sender heaps, min-priority heap, max-priority heap, per-pass schedule map) are mutated only by the designated mutators; (b) the three element mutators insert/remove/replace each update all of: hash map, sender heap, min heap, and (conditionally) max heap, so no index can drift; (c) every increment of a uint64 sequence number is dominated by a guard comparing that same value with math.MaxUint64, and no sequence number is compared with any other 'maximum' constant (the boundary the property names); (round 2) (d) only scheduleOne asks for a transaction's successor (nextSchedulable): seq+1 enters the schedule only because seq was handed out; (e) no transaction is inserted into a sender heap obtained before a call that can drop that sender's entry.",
 		"NOT decided: equivalence with a reference model over operation histories, priority order, capacity behaviour.")
 	ix := c.P.BuildIndex()
 	S := pkTxpool + ".(*mainQueueScheduler)."
@@ -375,4 +375,6 @@ func rulesC20(c *Ctx) {
 		}
 	}
 	c.Floor("C20.overflow", nInc, 4, "sequence-number increments in the scheduler")
+	rulesC20Round2(c, ix)
+	rulesC20Round2b(c)
 }
